@@ -5,6 +5,7 @@ from ..model import AnalysisError, own_nodes, norm_src
 from ..report import RuleResult
 from ..cfg import CFG
 from ..util import key_of, src, call_name, kwarg
+from ..pattern import find, has, match
 
 META = {
     'decides': (
@@ -51,10 +52,17 @@ def rule_worklist(ctx):
     rr.instances += 1
     # done test directly after
     guard = lp.body[1] if len(lp.body) > 1 else None
-    gok = isinstance(guard, ast.If) and ('%s in done' % node) in norm_src(
-        guard.test) and any(isinstance(s, ast.Continue) for s in guard.body)
-    mark = [n for n in lp.body if isinstance(n, ast.Expr) and norm_src(
-        n.value) == 'done.add(%s)' % node]
+    # the done-set: the collection S with `S.add(<node>)` as third statement
+    done = None
+    if len(lp.body) > 2 and isinstance(lp.body[2], ast.Expr) and isinstance(
+            lp.body[2].value, ast.Call) and call_name(lp.body[2].value) == \
+            'add' and [norm_src(a) for a in lp.body[2].value.args] == [node]:
+        done = norm_src(lp.body[2].value.func.value)
+    gok = done is not None and isinstance(guard, ast.If) and (
+        '%s in %s' % (node, done)) in norm_src(guard.test) and any(
+        isinstance(s, ast.Continue) for s in guard.body)
+    mark = [n for n in lp.body if done is not None and isinstance(
+        n, ast.Expr) and norm_src(n.value) == '%s.add(%s)' % (done, node)]
     if gok and mark and lp.body.index(mark[0]) == 2:
         rr.ok('popped node is skipped if already done, else marked done before '
               'processing', '%s:%d' % (EXCEL, guard.lineno))
@@ -67,7 +75,7 @@ def rule_worklist(ctx):
     # done initialised from cells
     rr.instances += 1
     init = [n for n in own_nodes(f) if isinstance(n, ast.Assign) and any(
-        isinstance(t, ast.Name) and t.id == 'done' for t in n.targets)]
+        isinstance(t, ast.Name) and t.id == done for t in n.targets)]
     if init and 'self.cells' in norm_src(init[0].value):
         rr.ok('done-set starts from the cells already loaded', EXCEL)
     else:
@@ -94,7 +102,7 @@ def rule_worklist(ctx):
                 file=EXCEL, function=f.qualname, line=lp.lineno)
     # (2) anchor branch
     anch = [n for n in ast.walk(lp) if isinstance(n, ast.If) and
-            "rng.get('anchor')" in norm_src(n.test)]
+            match("__rng.get('anchor')", n.test) is not None]
     aok = False
     if anch:
         inner = [c for s in anch[0].body for c in ast.walk(s)
@@ -144,8 +152,9 @@ def rule_worklist(ctx):
           and call_name(n) == 'iter_rows']
     if it and len(it[0].args) == 4:
         a = [norm_src(x) for x in it[0].args]
-        good = a[0] == "int(rng['r1'])" and a[1] == "min(int(rng['r2']), max_row)" \
-            and a[2] == "rng['n1']" and a[3] == "min(rng['n2'], max_column)"
+        good = match("__wk.iter_rows(int(__rng['r1']), min(int(__rng['r2']), "
+                     "__mr), __rng['n1'], min(__rng['n2'], __mc))",
+                     it[0]) is not None
         if good:
             rr.ok('rows/columns are read from r1..min(r2, max_row), '
                   'n1..min(n2, max_column)', '%s:%d' % (EXCEL, it[0].lineno))
